@@ -3,6 +3,7 @@ C12 — concrete models used by the `example`s of `Props/C12.lean` (bodies from 
 rate-law library, i.e. from the current `mxlpy/fns.py`).
 -/
 import MxlVerif.Model.C12
+import MxlVerif.Model.C12Sim
 import MxlVerif.Generated.C12Lib
 namespace Mxl.C12
 
@@ -27,6 +28,44 @@ def witnessMM : SContent :=
     rxns := [("r0", ⟨⟨["v0", "d0", "c2"], Lib.michaelis_menten_1s⟩,
                 [("v0", .num (-1)), ("v1", .dyn ⟨["v0", "c0"], Lib.mul⟩)]⟩),
              ("r1", ⟨⟨["v1", "c1"], Lib.mass_action_1s⟩, [("v1", .num (-1))]⟩)] }
+
+/-- the same model after `update_reaction("r1", fn=mass_action_2s, args=["v1", "v0", "c1"])` -/
+def witnessMMEdited : SContent :=
+  { witnessMM with
+    rxns := [("r0", ⟨⟨["v0", "d0", "c2"], Lib.michaelis_menten_1s⟩,
+                [("v0", .num (-1)), ("v1", .dyn ⟨["v0", "c0"], Lib.mul⟩)]⟩),
+             ("r1", ⟨⟨["v1", "v0", "c1"], Lib.mass_action_2s⟩, [("v1", .num (-1))]⟩)] }
+
+/-- the glue before the repair of F-C12-5: parameter values watched, the model's cache object not -/
+def glueBeforeWatch : Glue := { expectedGlue with watchesModel := false, storesCache := false, cacheFrom := "" }
+
+/-- the glue with the two statements of the recompile branch in the other order (remember first, compile then) -/
+def glueStoreFirst : Glue := { expectedGlue with compileBeforeStore := false }
+
+/-- what a fresh Simulator's `jac_fn` answers, as an output of the state machine -/
+def outOf : Option (List (List Rat)) → SimOut
+  | some J => .mat J
+  | none => .noJac
+
+/-- the outputs of a history on a fresh Simulator (`none` = something raised) -/
+def histOuts (g : Glue) (c : SContent) (ops : List SimOp) : Option (List SimOut) :=
+  match simInitG g c with
+  | .ok s0 => (match runG g s0 ops with | .ok r => some r.2 | .error _ => none)
+  | .error _ => none
+
+/-- the matrix a fresh Simulator on `c` hands over at `t = 0`, state `xs` -/
+def jacAt (c : SContent) (xs : List Rat) : Option (List (List Rat)) :=
+  match callJac c 0 xs with
+  | .ok o => o
+  | .error _ => none
+
+/-- the same model after `update_reaction("r1", fn=mass_action_1s, args=["v1", "time"])`: numerically fine, but
+    `time` is no symbol of the symbolic model, so the conversion raises `KeyError` -/
+def witnessMMTime : SContent :=
+  { witnessMM with
+    rxns := [("r0", ⟨⟨["v0", "d0", "c2"], Lib.michaelis_menten_1s⟩,
+                [("v0", .num (-1)), ("v1", .dyn ⟨["v0", "c0"], Lib.mul⟩)]⟩),
+             ("r1", ⟨⟨["v1", "time"], Lib.mass_action_1s⟩, [("v1", .num (-1))]⟩)] }
 
 def isKeyError {α} (k : Name) : Except Err α → Bool
   | .error (.keyError k') => k == k'
